@@ -103,7 +103,7 @@ Definition seed_safe (P : program) (f : fname) : bool :=
   | None => false
   end.
 
-Definition all_safe (P : program) : bool := forallb (seed_safe P) (map fst P).
+Definition prog_safe (P : program) : bool := forallb (seed_safe P) (map fst P).
 
 (* ------------------------------------------------------------------ semantics *)
 Inductive value :=
